@@ -117,3 +117,89 @@ func outName2(sites []siteID, got int) string {
 	}
 	return "an unmarked response"
 }
+
+// Designated fallback sites (SiteConfig.FallbackSite, set by plugins - no
+// standard directive does): several servers are built in one process, each
+// with its own designated fallback site, all are kept, and then each is asked
+// for hosts nobody claims. A listener's fallback is its own, whatever other
+// listeners were built before or after it.
+func (m *monitor) designatedFallbacks() {
+	c := m.c
+	type layout struct {
+		sites []siteID
+		fb    int // index of the designated fallback site
+	}
+	layouts := []layout{
+		{[]siteID{{"a.test", ""}, {"fb-one.test", ""}}, 1},
+		{[]siteID{{"fb-two.test", ""}, {"*.b.test", ""}, {"b.test", "/x"}}, 0},
+		{[]siteID{{"c.test", ""}, {"fb-three.test", ""}, {"fb-three.test", "/x"}}, 1},
+		{[]siteID{{"fb-one.test", ""}, {"fb-four.test", ""}}, 1}, // a name that is another listener's fallback, claimed here as an ordinary site
+		{[]siteID{{"d.test", ""}, {"", "/only"}, {"fb-five.test", ""}}, 2},
+	}
+	orders := [][]int{{0, 1, 2, 3, 4}, {4, 3, 2, 1, 0}, {2, 0, 4, 1, 3}}
+	hosts := []string{"nobody.example", "NOBODY.example:8080", "fb-one.test", "fb-two.test", "fb-four.test", "x.b.test", "a.test", "c.test", "zz.c.test", ""}
+	paths := []string{"/", "/x", "/x/y", "/only/z", "/other"}
+	for oi, order := range orders {
+		srvs := make([]*httpserver.Server, len(layouts))
+		ok := true
+		for _, li := range order {
+			var group []*httpserver.SiteConfig
+			for i, s := range layouts[li].sites {
+				sc := directSite(s.Host+s.Path, i)
+				sc.Addr.Host, sc.Addr.Path = s.Host, s.Path // as the address parser fills them in
+				sc.FallbackSite = i == layouts[li].fb
+				group = append(group, sc)
+			}
+			srv, err := httpserver.NewServer("127.0.0.1:0", group)
+			if err != nil {
+				c.Inconclusive(fmt.Sprintf("designated fallbacks: NewServer for layout %d: %v", li, err))
+				ok = false
+				break
+			}
+			srvs[li] = srv
+		}
+		if !ok {
+			continue
+		}
+		c.Journal("C01 designated fallbacks, build order %v", order)
+		for li, lay := range layouts {
+			for _, host := range hosts {
+				for _, path := range paths {
+					req := httptest.NewRequest("GET", "http://placeholder.invalid"+path, nil)
+					req.Host = host
+					rec := httptest.NewRecorder()
+					srvs[li].ServeHTTP(rec, req)
+					acc, stage := refRoute(lay.sites, host, path)
+					fbKey := lay.sites[lay.fb].Host
+					if stage == stNone || stage == stCatchAll {
+						// "else a catch-all or designated fallback site"
+						if stage == stNone {
+							acc = map[int]bool{}
+						}
+						ms := refPath(lay.sites, fbKey, path)
+						if len(ms) == 0 {
+							acc[notFound] = true
+						}
+						for _, i := range ms {
+							acc[i] = true
+						}
+						stage += "+designated-fallback"
+					}
+					got := notFound
+					if v := rec.Header().Get("X-Direct-Site"); v != "" {
+						fmt.Sscan(v, &got)
+					} else if rec.Code != http.StatusNotFound {
+						got = -2
+					}
+					c.Eval(1)
+					c.Count("designated_fallback_requests", 1)
+					c.Nontrivial(fmt.Sprintf("designated-fallback/%d/%d/%s/%s", oi, li, host, path))
+					if !acc[got] {
+						c.Violation("C01/misrouted/designated-fallback", fmt.Sprintf("listener %d of %d built in order %v (designated fallback site %q): Host %q path %q answered by %s (status %d); reference (stage %s) accepts %v", li, len(layouts), order, fbKey, host, path, outName2(lay.sites, got), rec.Code, stage, keysOf(acc)),
+							map[string]interface{}{"sites": lay.sites, "designated_fallback": fbKey, "build_order": order, "host": host, "path": path, "status": rec.Code})
+					}
+				}
+			}
+		}
+	}
+}
